@@ -24,6 +24,7 @@ NAMED = collections.OrderedDict([
     ("booleans", ["boolOp"]), ("strings", ["strOp", "strCmp"]),
     ("lists", ["listLit", "listOp", "listIndex"]), ("arrays", ["arrLit", "arrNew", "arrIndex", "arrSet"]),
     ("records", ["recLit", "recField", "recSet"]), ("unions", ["uniLit", "uniCase", "uniGet"]),
+    ("union-branch-assignment", ["uniSet"]), ("unions-with-branches-of-one-type", ["static:union-same-type-branches"]),
     ("closures", ["cloMake"]), ("closure-application", ["cloApply"]),
     ("generators", ["yield"]), ("while-loops", ["whileIter"]), ("for-loops", ["forRangeIter", "forInIter"]),
     ("break", ["brk"]), ("iterate", ["iter"]), ("early-exit", ["seqExit"]), ("early-return", ["retEarly"]),
@@ -64,21 +65,40 @@ def layouts_for(rng, n):
     return [{"indent": rng.randint(1, 8), "tabs": rng.random() < 0.3,
              "seed": 0 if rng.random() < 0.2 else rng.randint(1, 10**6)} for _ in range(n)]
 
-def run_batch(build, res, routes, forms):
-    """run every accepted program on every route; forms[i][route] picks braced/piled"""
+LEVELS = ("-Q2", "-Q3", "-Q5")
+RUN_TIMEOUT = 120        # one compile+run; a hang must not stall the tier
+
+def split_route(route):
+    """"interp-Q2" -> ("interp", ["-Q2"])"""
+    if "-Q" in route:
+        r, q = route.split("-Q", 1)
+        return r, ["-Q" + q]
+    return route, []
+
+def run_one(build, source, route, timeout=RUN_TIMEOUT):
+    r, opts = split_route(route)
+    return M.compile_and_run(build, source, r, opts=opts, timeout=timeout)
+
+def run_batch(build, res, routes, forms, extra=()):
+    """run every accepted program on every route; forms[i][route] picks braced/piled.
+    `extra`: (program index, route-with-level) pairs run in addition (optimisation levels)"""
     jobs = []
     for i, r in enumerate(res):
         if r["ok"]:
             for route in routes:
                 jobs.append((i, route, forms[i][route]))
-    outs = M.run_many([(M.compile_and_run, (build, res[i][form], route), {"timeout": 300}) for i, route, form in jobs])
+    for i, route in extra:
+        if res[i]["ok"]:
+            jobs.append((i, route, forms[i][split_route(route)[0]]))
+    outs = M.run_many([(run_one, (build, res[i][form], route), {}) for i, route, form in jobs])
     return jobs, outs
 
 def shrink_disagreement(build, prog, route, form, kind, layout, budget):
+    tmo = 30 if kind.startswith("runtime-timeout") else 90
     def pred(cands):
         rs = M.model(cands, layout=layout)
         idx = [k for k, r in enumerate(rs) if r["ok"]]
-        outs = M.run_many([(M.compile_and_run, (build, rs[k][form], route), {"timeout": 300}) for k in idx])
+        outs = M.run_many([(run_one, (build, rs[k][form], route), {"timeout": tmo}) for k in idx])
         ok = [False] * len(cands)
         for k, o in zip(idx, outs):
             good, _ = M.agrees(rs[k], o)
@@ -117,9 +137,7 @@ def run(ctx):
                        "Expand,Typecheck,Effects,Render,Lex}.lean; reader Driver/MiniAldor.lean; generator vlib/miniald.py")
     ctx.assumptions.append("C01 proper (compiled output = reference evaluator) is decided by correspondence on generated "
                            "programs, not by a theorem: the compiler pipeline is not modelled (DESIGN.md §4 C01)")
-    try:
-        common.ensure_driver("miniald")
-    except RuntimeError:
+    if not os.path.exists(common.lean_driver()):
         common.report_proof_failure(ctx, "Lean driver missing")
         return
     rng = ctx.rng
@@ -141,8 +159,13 @@ def run(ctx):
             if "source" in e:       # a form the renderer does not produce: source and expectation are given
                 cres[i] = {"ok": True, "stdout": e["expected_stdout"], "exit": e.get("expected_exit", "ok"),
                            "braced": e["source"], "piled": e["source"], "reject": ""}
-        forms = [{r: e.get("form", "braced") for r in routes} for e in corpus]
-        jobs, outs = run_batch(build, cres, routes, forms)
+        jobs = []
+        for i, e in enumerate(corpus):
+            if cres[i]["ok"]:
+                for r in e.get("routes", routes):
+                    jobs.append((i, r + "".join(e.get("opts", [])), e.get("form", "braced")))
+        outs = M.run_many([(run_one, (build, cres[i][form], route), {"timeout": corpus[i].get("timeout", RUN_TIMEOUT)})
+                           for i, route, form in jobs])
         seen = set()
         for (i, route, form), o in zip(jobs, outs):
             e = corpus[i]
@@ -193,14 +216,23 @@ def run(ctx):
                 if r["reject"].startswith(("stuck", "parse", "driver", "model-order", "renderer")):
                     # the generator or the model is wrong: a harness error, never a VIOLATION of C01
                     harness_error(ctx, "model/generator defect: %s on %s" % (r["reject"], json.dumps(p)[:600]))
-        jobs, outs = run_batch(build, res, routes, forms)
+        # a rotating subset also at higher optimisation levels (interpreter route: cheap); the expected
+        # output is the same, a difference is a violation of C01 at that level
+        okix = [i for i, r in enumerate(res) if r["ok"]]
+        nlev = min(len(okix), max(36, len(okix) // 8) if quick else max(36, len(okix) // 5))
+        extra = []
+        for i in rng.sample(okix, nlev):
+            extra.append((i, "interp-Q2"))
+            extra.append((i, "interp" + rng.choice(LEVELS[1:])))
+        jobs, outs = run_batch(build, res, routes, forms, extra)
         agreed = collections.Counter()
         for (i, route, form), o in zip(jobs, outs):
             good, why = M.agrees(res[i], o)
             stats["runs"] += 1
             if good:
                 stats["agree_" + route] += 1
-                agreed[i] += 1
+                if route in routes:
+                    agreed[i] += 1
                 continue
             stats["disagree_" + route] += 1
             kind = kind_of(res[i], o)
@@ -211,7 +243,7 @@ def run(ctx):
                 small, log = shrink_disagreement(build, progs[i], route, form, kind, lays[i], 150 if quick else 500)
                 rs = M.model([small], layout=lays[i])[0]
                 if rs["ok"]:
-                    o2 = M.compile_and_run(build, rs[form], route, timeout=300)
+                    o2 = run_one(build, rs[form], route)
                     if not M.agrees(rs, o2)[0]:
                         prog, src, exp, got, note = small, rs[form], rs, o2, log[0]
             sig = "c01|%s|%s|%s" % (route, kind, top_feature(prog))
@@ -221,6 +253,7 @@ def run(ctx):
                          "got": {"rc": got["rc"], "stdout": got["stdout"][-3000:], "stderr": got["stderr"][-3000:],
                                  "compile_out": str(got.get("compile_out", ""))[-2000:]},
                          "command": got["cmd"] + "   (in a fresh directory holding the source as p.as" + ("; then ./p" if route == "c" else "") + ")",
+                         "level": (split_route(route)[1] or ["default"])[0],
                          "shrink": note})
         stats["agreed_on_both"] += sum(1 for i, r in enumerate(res) if r["ok"] and agreed[i] == len(routes))
         if done == 0 and res:
